@@ -50,7 +50,8 @@ namespace chaiscript {
 
     template<typename T>
     static const T *verify_type(const Boxed_Value &ob, const std::type_info &ti, const T *ptr) {
-      if (ob.get_type_info().bare_equal_type_info(ti)) {
+      // the full type has to match: an object that is itself a pointer (a boxed T* variable) has bare type T but is not a T
+      if (ob.get_type_info() == ti) {
         return throw_if_null(ptr);
       } else {
         throw chaiscript::detail::exception::bad_any_cast();
@@ -59,7 +60,7 @@ namespace chaiscript {
 
     template<typename T>
     static T *verify_type(const Boxed_Value &ob, const std::type_info &ti, T *ptr) {
-      if (!ob.is_const() && ob.get_type_info().bare_equal_type_info(ti)) {
+      if (!ob.is_const() && ob.get_type_info() == ti) {
         return throw_if_null(ptr);
       } else {
         throw chaiscript::detail::exception::bad_any_cast();
